@@ -205,6 +205,62 @@ fn run_varpos<const M: usize>(sc: &J, out: &mut dyn Write) {
     crate::c05::run_with_faults(&c, &sc2, extra, out);
 }
 
+/// RIPEMD-160 (stand-alone chip): message and digest bytes exposed
+#[derive(Clone, Debug)]
+pub struct RipeCircuit {
+    pub msg: Vec<u8>,
+}
+
+impl Circuit<F> for RipeCircuit {
+    type Config = <midnight_circuits::hash::ripemd160::RipeMD160Chip<F> as FromScratch<F>>::Config;
+    type FloorPlanner = SimpleFloorPlanner;
+    type Params = ();
+    fn without_witnesses(&self) -> Self {
+        self.clone()
+    }
+    fn configure(meta: &mut ConstraintSystem<F>) -> Self::Config {
+        let c = meta.instance_column();
+        let i = meta.instance_column();
+        midnight_circuits::hash::ripemd160::RipeMD160Chip::<F>::configure_from_scratch(meta, &[c, i])
+    }
+    fn synthesize(&self, config: Self::Config, mut l: impl Layouter<F>) -> Result<(), Error> {
+        use midnight_circuits::{hash::ripemd160::RipeMD160Chip, instructions::HashInstructions};
+        let chip = RipeMD160Chip::<F>::new_from_scratch(&config);
+        let ng = <NG as FromScratch<F>>::new_from_scratch(&config.1);
+        let l = &mut l;
+        let ab: Vec<AssignedByte<F>> = ng.assign_many(l, &self.msg.iter().map(|b| Value::known(*b)).collect::<Vec<_>>())?;
+        for b in ab.iter() {
+            note('B', 1);
+            ng.constrain_as_public_input(l, b)?;
+        }
+        let out: [AssignedByte<F>; 20] = chip.hash(l, &ab)?;
+        for b in out.iter() {
+            note('B', 1);
+            ng.constrain_as_public_input(l, b)?;
+        }
+        chip.load_from_scratch(l)
+    }
+}
+
+fn run_ripemd(sc: &J, out: &mut dyn Write) {
+    use ripemd::Digest;
+    let msg = bytes_of(sc);
+    let c = RipeCircuit { msg: msg.clone() };
+    let mut sc2 = sc.clone();
+    sc2["fam"] = json!("hash");
+    sc2["field"] = json!("none");
+    sc2["op"] = sc["alg"].clone();
+    sc2["params"] = json!([]);
+    sc2["ins"] = json!([]);
+    if sc2["k"].is_null() {
+        let blocks = (msg.len() + 9 + 63) / 64;
+        sc2["k"] = json!(if blocks <= 3 { 14 } else if blocks <= 7 { 15 } else { 16 });
+    }
+    let reference: Vec<u8> = ripemd::Ripemd160::digest(&msg).to_vec();
+    let extra = json!({"alg":sc["alg"],"msg":msg,"inputs":[],"nin":msg.len(),"reference":reference,"k":sc2["k"]});
+    crate::c05::run_with_faults(&c, &sc2, extra, out);
+}
+
 fn sha_ng_config(c: &<VarLenSha256Gadget<F> as FromScratch<F>>::Config) -> <NG as FromScratch<F>>::Config {
     c.1.clone()
 }
@@ -319,6 +375,7 @@ pub fn main(args: &[String]) -> i32 {
                 _ => run_varsha::<192>(sc, &mut out),
             },
             "sponge" => sponge_session(sc, &mut out),
+            "ripemd160" => run_ripemd(sc, &mut out),
             "poseidon_varlen" => match sc["maxlen"].as_u64().unwrap_or(8) {
                 4 => run_varpos::<4>(sc, &mut out),
                 8 => run_varpos::<8>(sc, &mut out),
